@@ -58,7 +58,7 @@ func runC06(c *Ctx, r *Report, tier string) {
 	fname := c.fname(cr)
 	var walkLoop *Loop
 	var walkPhi *ssa.Phi
-	for _, l := range loopsOf(cr) {
+	for _, l := range c.loopsDeep(cr) {
 		for _, in := range l.Header.Instrs {
 			p, ok := in.(*ssa.Phi)
 			if !ok {
@@ -119,7 +119,7 @@ func runC06(c *Ctx, r *Report, tier string) {
 	} else {
 		sname := c.fname(sel)
 		var appends []ssa.Instruction
-		for _, b := range sel.Blocks {
+		for _, b := range c.blocks(sel) {
 			for _, in := range b.Instrs {
 				if st, ok := in.(*ssa.Store); ok {
 					if _, isFV := st.Addr.(*ssa.FreeVar); isFV && isSliceT(st.Val.Type()) {
@@ -184,7 +184,7 @@ func runC06(c *Ctx, r *Report, tier string) {
 		"Command.ArgsRequired(": "Command.ArgsRequired(parseState.command(P0))",
 	}
 	seenAR := 0
-	for _, b := range cr.Blocks {
+	for _, b := range c.blocks(cr) {
 		for _, in := range b.Instrs {
 			if u, ok := in.(*ssa.UnOp); ok {
 				t := c.term(u)
@@ -202,7 +202,7 @@ func runC06(c *Ctx, r *Report, tier string) {
 	}
 	elem := "idx(parseState.positional(P0), "
 	lits := map[string]bool{}
-	for _, b := range cr.Blocks {
+	for _, b := range c.blocks(cr) {
 		for si := range b.Succs {
 			if l, ok := c.edgeLit(b, si); ok {
 				lits[l.Term] = true
@@ -249,7 +249,7 @@ func runC06(c *Ctx, r *Report, tier string) {
 	// every element of the missing list is named: the loop that reads the list appends on every iteration
 	if reqCell != nil {
 		named := false
-		for _, l := range loopsOf(cr) {
+		for _, l := range c.loopsDeep(cr) {
 			for b := range l.Blocks {
 				for _, in := range b.Instrs {
 					call, ok := in.(*ssa.Call)
@@ -272,6 +272,17 @@ func runC06(c *Ctx, r *Report, tier string) {
 						if c2, ok := in2.(*ssa.Call); ok && c.calleeName(c2.Common()) == "append" {
 							for _, e := range sliceLitElems(c2.Common().Args[len(c2.Common().Args)-1]) {
 								if strings.Contains(c.term(e), "call:(*Option).String(idx(cell:[]*Option") {
+									hasAppend = true
+								}
+							}
+						}
+					}
+					// or it is stored at the loop's own index into a list made with the length of the missing list
+					for _, in2 := range b.Instrs {
+						if st, ok := in2.(*ssa.Store); ok && strings.Contains(c.term(st.Val), "call:(*Option).String(idx(cell:[]*Option") {
+							if ia, ok := st.Addr.(*ssa.IndexAddr); ok {
+								base, idx := c.term(ia.X), c.term(ia.Index)
+								if strings.HasPrefix(base, "makeslice[[]string](len(cell:[]*Option))") && strings.Contains(c.term(call.Common().Args[0]), "idx(cell:[]*Option, "+idx+")") {
 									hasAppend = true
 								}
 							}
